@@ -8,8 +8,9 @@ import re
 from harness import chars, core, drivers, shelldrv, tlc
 
 
-def fname(f, variant):
-    return 'f%d.tex' % f
+def base(f):
+    # one file has a dotted base name (adding .tex where missing must not depend on other dots)
+    return 'f3.v2' if f == 3 else 'f%d' % f
 
 
 def drive(case):
@@ -20,17 +21,17 @@ def drive(case):
         for k, g in enumerate(case['inc'][f - 1]):
             # with and without the .tex extension, \input and \include, extra blanks
             if (f + k + g) % 3 == 0:
-                lines.append('\\input{f%d}' % g)
+                lines.append('\\input{%s}' % base(g))
             elif (f + k + g) % 3 == 1:
-                lines.append('\\include{f%d.tex} more text' % g)
+                lines.append('\\include{%s.tex} more text' % base(g))
             else:
-                lines.append('A \\input{f%d} B' % g)
-        lines.append('%% \\input{f%d} in a comment' % ((f % n) + 1))
-        files['f%d.tex' % f] = '\n'.join(lines) + '\n'
+                lines.append('A \\input{%s} B' % base(g))
+        lines.append('%% \\input{%s} in a comment' % base((f % n) + 1))
+        files[base(f) + '.tex'] = '\n'.join(lines) + '\n'
     args = ['--include']
     if case['skip']:
-        args += ['--skip', '|'.join('f%d\\.tex' % s for s in case['skip'])]
-    args += ['f%d.tex' % s for s in case['start']]
+        args += ['--skip', '|'.join(re.escape(base(s) + '.tex') for s in case['skip'])]
+    args += [base(s) + '.tex' for s in case['start']]
     r = shelldrv.run_shell(files, args)
     rec = dict(case)
     rec['exit'] = r['exit']
@@ -39,11 +40,11 @@ def drive(case):
     done = []
     if m and m.group(1).strip():
         for name in m.group(1).split(', '):
-            mm = re.match(r'^f(\d+)\.tex$', name.strip())
+            mm = re.match(r'^f(\d+)(\.v2)?\.tex$', name.strip())
             done.append(int(mm.group(1)) if mm else 0)
     rec['done'] = done
     # the files actually proofread (progress lines) must be the same list
-    checked = [int(x) for x in re.findall(r'^=== f(\d+)\.tex$', r['stderr'], re.M)]
+    checked = [int(x) for x in re.findall(r'^=== f(\d+)(?:\.v2)?\.tex$', r['stderr'], re.M)]
     if r['exit'] == 0 and checked != done:
         rec['done'] = checked if len(checked) > len(done) else done
         rec['exit'] = -3
